@@ -355,7 +355,7 @@ PROPS["C13"] = {
     "outside": ["more context switches than R*T-1", "more than 6 operations"],
     "assumptions": ["sync/atomic operations are sequentially consistent single steps", "GC: nodes are never reused while referenced"],
     "units": [
-        {"name": "queue", "pkgdir": "pkg/queue", "files": ["harness/queue/c13_queue.go"], "mode": "int",
+        {"name": "queue", "pkgdir": "pkg/queue", "files": ["harness/queue/c13_queue.go"], "mode": "int", "immutable_globals": ["vq", "vTasks"],
          "configs": [
              {"name": "A_EE_DD", "threads": ["VT_A_P", "VT_A_C"], "rounds": 3, "unwind": 3},
              {"name": "D_E_E_DD", "threads": ["VT_D_P1", "VT_D_P2", "VT_D_C"], "rounds": 3, "unwind": 3},
@@ -364,5 +364,74 @@ PROPS["C13"] = {
              {"name": "E_EE_E_DD_D", "threads": ["VT_E_P1", "VT_E_P2", "VT_E_C1", "VT_E_C2"], "rounds": 3, "unwind": 3, "tier": "thorough"},
          ],
          "extra_fns": ["VT_Quiescent"]},
+    ],
+}
+
+
+def _netpoll_conc_rewrite(src, out):
+    import re
+    s = open(src).read()
+    n = 0
+    for a, b in [("unix.EpollWait(", "vkEpollWait("), ("unix.Write(p.efd", "vkEfdWrite(p.efd"), ("unix.Read(p.efd", "vkEfdRead(p.efd"),
+                 ("b        = (*(*[8]byte)(unsafe.Pointer(&u)))[:]", "b        = []byte{1, 0, 0, 0, 0, 0, 0, 0}")]:
+        n += s.count(a)
+        s = s.replace(a, b)
+    if n < 3:
+        raise RuntimeError("poller_epoll_default.go: redirection anchors not found")
+    if "unsafe." not in s.replace('"unsafe"', ""):
+        s += "\nvar _ unsafe.Pointer\n"
+    open(out, "w").write(s)
+
+
+def _scale_const(name, val):
+    def gen(src, out):
+        import re
+        s = open(src).read()
+        s2, n = re.subn(r"(?m)^(\s*%s\s*=\s*)\d+" % name, r"\g<1>%d" % val, s)
+        if n != 1:
+            raise RuntimeError("%s: constant %s not found" % (src, name))
+        open(out, "w").write(s2)
+    return gen
+
+
+PROPS["C03"] = {
+    "claimed": False,
+    "conc": True,
+    "engine": "symgo-conc",
+    "level": "model_checking",
+    "level_text": "Bounded model checking of the REAL (*Poller).Trigger and (*Poller).Polling code with the real lock-free queues inlined (go/ssa, loops unrolled, symbolic round-robin schedule): for each producer/loop configuration one SMT formula covers every interleaving within the bound at the granularity of single atomic operations, plain shared accesses and the eventfd/epoll stubs. The liveness claim is checked in its safety form: no reachable state has all producers returned, the loop blocked in epoll_wait(-1) with no eventfd edge pending, and an accepted task not executed; plus at-most-once execution and issue order of one producer's high-priority tasks.",
+    "level_note": "Kernel stub: eventfd registered edge-triggered = one 'edge pending' cell; write sets it, a blocking epoll_wait can only be passed while it is set and consumes it, epoll_wait(0) consumes it or returns 0. Bounds: <= 2 producers with <= 2 requests each, R = 3 rounds, the loop unrolled to a fixed number of outer/inner iterations whose sufficiency is discharged by the solver (query 'bound:'), InitPollEventsCap scaled to 2 and MaxAsyncTasksAtOneTime to 1 in the scaled configuration. queue.GetTask is a fresh object per call (sync.Pool exclusivity). What the executed task does (AsyncWrite etc.) is C02/C04. Trusted: go/ssa lowering, the encoder, z3, SC atomics.",
+    "design_ref": "DESIGN.md sections 2.3 and 5 (C03)",
+    "technique": "bounded model checking of go/ssa thread programs with symbolic round-robin schedules (Lazy-CSeq style) in z3 QF_BV",
+    "explanation": "Engine B on pkg/netpoll: Trigger/Polling/Enqueue/Dequeue from go/ssa, system calls redirected to Go stubs over one shared cell.",
+    "bounds": {"producers": "<= 2", "requests": "<= 3", "rounds": 3},
+    "outside": ["kqueue pollers", "poll_opt build (thorough)", "eventfd counter overflow"],
+    "assumptions": ["SC atomics", "eventfd/epoll stub contract", "sync.Pool exclusivity for tasks"],
+    "units": [
+        {"name": "netpoll", "pkgdir": "pkg/netpoll", "files": ["harness/netpoll/export.go", "harness/netpoll/c03_wakeup.go"], "mode": "int", "oracle": "wakeup", "immutable_globals": ["vp", "vSchedHook", "vBlockHook"], "replayer": "replay_netpoll",
+         "rewrites": {"pkg/netpoll/poller_epoll_default.go": _netpoll_conc_rewrite, "pkg/netpoll/defs_poller_epoll.go": _scale_const("InitPollEventsCap", 2)},
+         "skip_pkgs": ["github.com/panjf2000/gnet/v2/pkg/logging"],
+         "configs": [
+             {"name": "H0_loop", "threads": ["VT_P_H0", "VT_Loop"], "rounds": 3, "unwind": 3, "unwind_fn": {"Poller).Polling": 6}, "tasks": 1},
+             {"name": "H0_H1_loop", "threads": ["VT_P_H0", "VT_P_H1", "VT_Loop"], "rounds": 3, "unwind": 3, "unwind_fn": {"Poller).Polling": 16}, "tasks": 2, "tier": "thorough"},
+             {"name": "H0H1_loop", "threads": ["VT_P_H0H1", "VT_Loop"], "rounds": 3, "unwind": 3, "unwind_fn": {"Poller).Polling": 16}, "tasks": 2, "ordered": [(0, 1)], "tier": "thorough"},
+             # the same configurations with the C13-justified atomic summary of the queue (link step and length step kept apart)
+             {"name": "sum_H0_H1_loop", "threads": ["VT_P_H0", "VT_P_H1", "VT_Loop"], "rounds": 3, "unwind": 3, "unwind_fn": {"Poller).Polling": 16}, "tasks": 2, "queue_summary": True},
+             {"name": "sum_H0H1_loop", "threads": ["VT_P_H0H1", "VT_Loop"], "rounds": 3, "unwind": 3, "unwind_fn": {"Poller).Polling": 16}, "tasks": 2, "ordered": [(0, 1)], "queue_summary": True},
+             {"name": "sum_H0H1_H2_loop", "threads": ["VT_P_H0H1", "VT_P_H2", "VT_Loop"], "rounds": 3, "unwind": 3, "unwind_fn": {"Poller).Polling": 16}, "tasks": 3, "ordered": [(0, 1)], "queue_summary": True, "tier": "thorough"},
+             {"name": "H0_L1_loop", "threads": ["VT_P_H0", "VT_P_L1", "VT_Loop"], "rounds": 3, "unwind": 3, "unwind_fn": {"Poller).Polling": 8}, "tasks": 2, "tier": "thorough"},
+             {"name": "H0H1_H2_loop", "threads": ["VT_P_H0H1", "VT_P_H2", "VT_Loop"], "rounds": 3, "unwind": 4, "unwind_fn": {"Poller).Polling": 10}, "tasks": 3, "ordered": [(0, 1)], "tier": "thorough"},
+         ]},
+        {"name": "netpoll-scaled", "pkgdir": "pkg/netpoll", "files": ["harness/netpoll/export.go", "harness/netpoll/c03_wakeup.go"], "mode": "int", "oracle": "wakeup", "immutable_globals": ["vp", "vSchedHook", "vBlockHook"], "replayer": "replay_netpoll",
+         "setup": "VT_SetupScaled",
+         "rewrites": {"pkg/netpoll/poller_epoll_default.go": _netpoll_conc_rewrite,
+                      "pkg/netpoll/defs_poller_epoll.go": lambda src, out: (_scale_const("InitPollEventsCap", 2)(src, out), _scale_const("MaxAsyncTasksAtOneTime", 1)(out, out))},
+         "skip_pkgs": ["github.com/panjf2000/gnet/v2/pkg/logging"],
+         "configs": [
+             {"name": "scaled_L0L1_loop", "threads": ["VT_P_L0L1", "VT_Loop"], "rounds": 3, "unwind": 3, "unwind_fn": {"Poller).Polling": 11}, "tasks": 2, "tier": "thorough"},
+             {"name": "sum_scaled_L0L1_loop", "threads": ["VT_P_L0L1", "VT_Loop"], "rounds": 3, "unwind": 3, "unwind_fn": {"Poller).Polling": 16}, "tasks": 2, "queue_summary": True},
+             {"name": "sum_scaled_L0_L1_loop", "threads": ["VT_P_L0", "VT_P_L1", "VT_Loop"], "rounds": 3, "unwind": 3, "unwind_fn": {"Poller).Polling": 16}, "tasks": 2, "queue_summary": True},
+             {"name": "scaled_L0_L1_loop", "threads": ["VT_P_L0", "VT_P_L1", "VT_Loop"], "rounds": 3, "unwind": 3, "unwind_fn": {"Poller).Polling": 8}, "tasks": 2, "tier": "thorough"},
+         ]},
     ],
 }
